@@ -182,16 +182,16 @@ Do(call) ==
                           [t |-> T[i].t,
                            ep |-> IF T[i].t.tok < 0 THEN epochs + bumps
                                   ELSE epochs + ((T[i].t.tok - st.tok + TokenMod) % TokenMod)]]
-      IN /\ r.res # "Panic"      \* a Panic is an assertion-state violation (see AssertionsHold)
-         /\ st' = r.st
+      IN /\ st' = (IF r.res = "Panic" THEN st ELSE r.st)
          /\ pend' = (IF call[3] > 0 THEN DropAt(pend, call[3]) ELSE pend) \o newTimers
-         /\ mon' = MonStep(mon, o)
+         /\ mon' = (IF r.res = "Panic" THEN mon ELSE MonStep(mon, o))
          /\ steps' = steps + 1
          /\ lastObs' = [call |-> call[1], res |-> r.res]
          /\ epochs' = epochs + bumps
 
 Next ==
     /\ steps < MaxSteps
+    /\ (lastObs # <<>> => lastObs.res # "Panic")
     /\ \E class \in Pick(Classes) :
          CASE class = "timer" -> \E i \in Pick(Deliverable) : Do(<<"timer", pend[i].t, i>>)
            [] class = "forged" -> \E t \in Pick(TimersForged) : Do(<<"timer", t, 0>>)
@@ -201,6 +201,10 @@ Next ==
 Spec == Init /\ [][Next]_vars
 
 -----------------------------------------------------------------------------
+\* C06 on the specification: the assertion state (send_buf capacity vs max_packet_size, the only
+\* debug assertion whose truth depends on the call history) never trips, whatever the history
+NoPanic == lastObs # <<>> => lastObs.res # "Panic"
+
 MonitorsQuiet == \A p \in (MonSet \cap DOMAIN mon) : mon[p].v = {}
 
 (***************************************************************************)
